@@ -181,7 +181,7 @@ def make_real(kind, sim, items, log):
     from reactivex.disposable import (BooleanDisposable, CompositeDisposable, Disposable, MultipleAssignmentDisposable,
                                       RefCountDisposable, SerialDisposable, SingleAssignmentDisposable)
     if kind == "disposable":
-        act = Item(sim, "action", False, log)
+        act = items["action"] = Item(sim, "action", False, log)
         return Disposable(act.dispose)
     if kind == "boolean":
         return BooleanDisposable()
@@ -282,6 +282,8 @@ def gen(rng, kinds, threads_choices=(1, 2, 2, 3)):
         used = sorted(set(op[1] for ops in scripts for op in ops if op[0] in ("add", "set")))
         if used:
             sc["reenter"] = {rng.choice(used): ["dispose"]}  # this item's teardown disposes the container it was put into
+    if kind == "disposable" and rng.random() < 0.25:
+        sc["reenter"] = {"action": ["dispose"]}  # the action disposes its own Disposable again (directly, or through a group it belongs to)
     return sc
     return {"kind": kind, "items": items, "scripts": scripts,
             "sched": {"seed": rng.getrandbits(32), "k": rng.choice([0, 1, 2, 2, 3, 3]) if len(scripts) > 1 else 0}}
